@@ -191,7 +191,8 @@ def _accounting(impl, replays, nscripts, desync, skipped, crashes):
 
 def _side(tier, scripts, bins, kinds, impl):
     traces, st = execute(tier, scripts, bins, kinds, impl)
-    merged = concat(traces, os.path.join(vlib.workdir("traces"), "set_%s_merged_%s" % (impl, tier)), 8)
+    # thorough: twice as many (half as large) trace files, same number of concurrent TLC processes (memory)
+    merged = concat(traces, os.path.join(vlib.workdir("traces"), "set_%s_merged_%s" % (impl, tier)), 8 if tier == "quick" else 16)
     tv = vlib.tv_parallel("SetTrace.tla", "SetTrace.cfg", merged, "set_tv_%s_%s" % (impl, tier), par=8, heap="2g")
     return tv, st
 
